@@ -61,6 +61,17 @@ func (c *compiler) module(y *Module) error {
 			return err
 		}
 	}
+	// (for the extensions written in feature statements)
+	featureNames := make([]string, 0, len(y.features))
+	for name := range y.features {
+		featureNames = append(featureNames, name)
+	}
+	sort.Strings(featureNames)
+	for _, name := range featureNames {
+		if err := c.compile(y.features[name]); err != nil {
+			return err
+		}
+	}
 
 	for _, im := range y.imports {
 		if err := c.compileImport(im.module); err != nil {
@@ -242,6 +253,16 @@ func (c *compiler) compile(o interface{}) error {
 		for _, y := range x.Extensions() {
 			if err := c.compile(y); err != nil {
 				return err
+			}
+		}
+	}
+	if x, ok := o.(HasMusts); ok {
+		// the extensions written in must statements, with the definitions in their bodies
+		for _, must := range x.Musts() {
+			for _, y := range must.extensions {
+				if err := c.compile(y); err != nil {
+					return err
+				}
 			}
 		}
 	}
@@ -451,6 +472,31 @@ func (c *compiler) compileType(y *Type, parent Leafable, isUnion bool) error {
 		return errors.New(SchemaPath(parent) + " - embedded types are only for union types")
 	}
 
+	// the extensions written in pattern, range, length and bit statements, with the definitions
+	// in their bodies (nobody else gets to them)
+	var inRestrictions []*Extension
+	for _, p := range y.patterns {
+		inRestrictions = append(inRestrictions, p.extensions...)
+	}
+	for _, r := range y.ranges {
+		inRestrictions = append(inRestrictions, r.extensions...)
+	}
+	for _, r := range y.lengths {
+		inRestrictions = append(inRestrictions, r.extensions...)
+	}
+	for _, b := range y.bits {
+		inRestrictions = append(inRestrictions, b.extensions...)
+	}
+	for _, x := range inRestrictions {
+		if x.parent == nil {
+			// (these statements are no definitions of their own, the leaf or typedef is their place in the tree)
+			x.parent = parent
+		}
+		if err := c.compile(x); err != nil {
+			return err
+		}
+	}
+
 	if y.format == val.FmtEnum || y.format == val.FmtEnumList {
 		y.enum = make(val.EnumList, len(y.enums))
 		// RFC7950 Sec 9.6.4.2 - without a value an enum gets zero if it is the first
@@ -467,6 +513,15 @@ func (c *compiler) compileType(y *Type, parent Leafable, isUnion bool) error {
 			y.enum[i] = val.Enum{
 				Id:    item.val,
 				Label: item.ident,
+			}
+			// the extensions written in the enum statement, with the definitions in their bodies
+			if item.parent == nil {
+				item.parent = parent
+			}
+			for _, x := range item.extensions {
+				if err := c.compile(x); err != nil {
+					return err
+				}
 			}
 		}
 	}
